@@ -23,7 +23,7 @@ func (c18) Info() core.Info {
 		ID:    "C18",
 		Title: "Key-pinning filters read only the pinned keys or region from storage",
 		Level: "exploration",
-		Rule: "all canonical key-pinning shapes (key = l, key in (..), key ^= l, key > >= < <= l, between) alone, AND-ed with an opaque predicate on either side, and AND-ed with a second pin, plus the unsatisfiable shapes (false, disjoint equalities / prefixes / ranges), literals from {'',a,ab,b,c}, on all 64 sub-stores of {a,ab,abb,b,ba,c}; row drain and batch drains at B in {1,2,32}. " +
+		Rule: "all canonical key-pinning shapes (key = l, key in (..), key ^= l, key > >= < <= l, between) alone, AND-ed with an opaque predicate on either side, and AND-ed with a second pin, plus the unsatisfiable shapes (false, disjoint equalities / prefixes / ranges), literals from {'',a,ab,b,c}, on all 128 sub-stores of {'',a,ab,abb,b,ba,c}; row drain and batch drains at B in {1,2,32}. " +
 			"Oracle on the storage call log of a standard full drain: equality/IN => only Get of pinned keys and no cursor; unsatisfiable => no call at all; prefix/range => no key before the region start and at most one key beyond its end is returned by Cursor.Next, for the region (closed reading) of at least one conjunct. Non-trivial: the store holds keys both inside and outside the pinned region. Distinct: (predicate, store, mode, B).",
 		Assumptions: []string{
 			"`key > l` / `key < l` pin the closed half-line (the weakest reading of the property text); 'one key beyond the end' is counted per full drain",
@@ -230,7 +230,7 @@ func (c18) RunUnit(t core.Tier, u int, r *core.Reporter) {
 	shapes := c18Shapes()
 	for i := u * c18PerUnit; i < (u+1)*c18PerUnit && i < len(shapes); i++ {
 		sh := shapes[i]
-		for mask := 0; mask < 64; mask++ {
+		for mask := 0; mask < 128; mask++ {
 			ps := subsetStore(mask, c01NumVals)
 			for _, cfg := range c18Configs {
 				c := predCase{Pred: sh.pred, Store: ps, Mode: cfg.mode, B: cfg.b}
